@@ -71,6 +71,19 @@ def reference(kinds, adj, nodes):
     return markers, full
 
 
+class ExplodingError(Exception):
+    pass
+
+
+class Exploding:
+    armed = False
+
+    def __repr__(self):
+        if Exploding.armed:
+            raise ExplodingError('repr of a leaf fails')
+        return 'PROBE'
+
+
 class GraphCase(base.CaseBase):
     def __init__(self, params):
         super().__init__(params)
@@ -108,6 +121,30 @@ class GraphCase(base.CaseBase):
     def execute(self, adj, w, rw):
         nodes = make_graph(self.kinds, adj)
         root = nodes[0]
+        if self.params.get('abort_first'):
+            # an earlier print of the same graph that is aborted by an
+            # exception in the middle of the traversal (repr of a leaf raises)
+            probe = Exploding()
+            for i, k in enumerate(self.kinds):
+                inner = nodes[i][0] if k == 'tuple' else nodes[i]
+                if k == 'dict':
+                    inner['zz_probe'] = probe
+                else:
+                    inner.append(probe)
+            Exploding.armed = True
+            try:
+                try:
+                    PKG.pformat(root)
+                except ExplodingError:
+                    pass
+            finally:
+                Exploding.armed = False
+            for i, k in enumerate(self.kinds):
+                inner = nodes[i][0] if k == 'tuple' else nodes[i]
+                if k == 'dict':
+                    del inner['zz_probe']
+                else:
+                    inner.pop()
         want_markers, want_full = reference(self.kinds, adj, nodes)
         describe = lambda: 'kinds=%r adjacency=%r\noutput:\n%s\nexpected markers=%r full printings=%r' % (
             self.kinds, adj, text, want_markers, want_full)
@@ -206,6 +243,9 @@ def cases(tier, seed):
         out.append({'name': 'n2:%s|page' % '-'.join(ks), 'family': 'graph',
                     'params': {'kinds': list(ks), 'slice': 'page'},
                     'budget': 200.0 if tier == 'quick' else 600.0})
+    for ks in ([('list', 'dict'), ('tuple', 'list')] if tier == 'quick' else list(itertools.product(K, repeat=2))):
+        out.append({'name': 'n2:%s:after-aborted-print' % '-'.join(ks), 'family': 'graph',
+                    'params': {'kinds': list(ks), 'abort_first': True, 'traced': False}, 'budget': 120.0})
     # 3 nodes: partitioned by the first row of the matrix
     k3 = [('list', 'list', 'list'), ('list', 'dict', 'tuple'), ('dict', 'tuple', 'list')]
     if tier == 'thorough':
@@ -217,6 +257,11 @@ def cases(tier, seed):
             out.append({'name': 'n3:%s:row0=%s' % ('-'.join(ks), ''.join(map(str, row))), 'family': 'graph',
                         'params': {'kinds': list(ks), 'row0': list(row)},
                         'budget': 150.0 if tier == 'quick' else 400.0})
+            if ks == k3[1] and (tier == 'thorough' or sum(row) == 2):
+                out.append({'name': 'n3:%s:row0=%s:after-aborted-print' % ('-'.join(ks), ''.join(map(str, row))),
+                            'family': 'graph',
+                            'params': {'kinds': list(ks), 'row0': list(row), 'abort_first': True},
+                            'budget': 150.0 if tier == 'quick' else 400.0})
     if tier == 'thorough':
         for ks in [('list', 'dict', 'tuple', 'list'), ('dict', 'list', 'list', 'tuple')]:
             for row in itertools.product([0, 1], repeat=4):
